@@ -204,7 +204,7 @@ def build(case, tmpdir, order=("ff", "itp")):
     return force_field, meta
 
 
-def dump_link(link):
+def dump_link(link, allow_explicit=False):
     atoms = []
     for key in link.nodes:
         attrs = link.nodes[key]
@@ -235,7 +235,7 @@ def dump_link(link):
                              attrs=enc_tattrs(to_attrs, skip=("order", "replace", "modifications"))))
     patterns = [[dict(key=str(key), attrs=enc_tattrs(attrs, skip=("order", "replace", "modifications")))
                  for key, attrs in pattern] for pattern in link.patterns]
-    if link.molecule_meta.get("by_atom_id"):
+    if link.molecule_meta.get("by_atom_id") and not allow_explicit:
         raise Unsupported("explicit (by_atom_id) link")
     return dict(atoms=atoms, ixns=ixns, edges=edges, nonedges=nonedges, patterns=patterns,
                 molmeta=enc_tattrs(link.molecule_meta))
@@ -253,8 +253,26 @@ def dump_ixns(molecule):
     return out
 
 
-def dump_input(meta):
-    """state after MapToMolecule.run_molecule: what ApplyLinks.run_molecule reads"""
+def dump_xixns(links):
+    """the interactions of the `by_atom_id` links in the order `run_molecule` visits them (links in definition
+    order, sections in dict order), atoms as the tokens written in the file"""
+    out = []
+    for link in links:
+        if not link.molecule_meta.get("by_atom_id"):
+            continue
+        for section, lst in link.interactions.items():
+            for ixn in lst:
+                if any(callable(p) for p in ixn.parameters):
+                    raise Unsupported("parameter effector")
+                out.append(dict(section=section, atoms=[str(a) for a in ixn.atoms],
+                                params=[str(p) for p in ixn.parameters], meta=sorted(enc_attrs(ixn.meta))))
+    return out
+
+
+def dump_input(meta, explicit=False):
+    """state after MapToMolecule.run_molecule: what ApplyLinks.run_molecule reads.  With `explicit` the
+    `by_atom_id` links are accepted (they stay in `links`: the double loop visits them too) and their
+    interactions are listed in `xixns`."""
     molecule = meta.molecule
     atoms = [dict(key=int(k), resid=int(molecule.nodes[k]["resid"]), attrs=enc_attrs(molecule.nodes[k]))
              for k in molecule.nodes]
@@ -269,9 +287,12 @@ def dump_input(meta):
                         fedges=[[int(u), int(v)] for u, v in frag.edges]))
     redges = [[int(u), int(v), (enc(data["linktype"]) if "linktype" in data else None)]
               for u, v, data in meta.edges(data=True)]
-    links = [dump_link(link) for link in meta.force_field.links]
-    return dict(atoms=atoms, edges=edges, ixns=dump_ixns(molecule), molmeta=enc_attrs(molecule.meta),
-                nrexcl=int(molecule.nrexcl), res=res, redges=redges, links=links)
+    links = [dump_link(link, allow_explicit=explicit) for link in meta.force_field.links]
+    out = dict(atoms=atoms, edges=edges, ixns=dump_ixns(molecule), molmeta=enc_attrs(molecule.meta),
+               nrexcl=int(molecule.nrexcl), res=res, redges=redges, links=links)
+    if explicit:
+        out["xixns"] = dump_xixns(meta.force_field.links)
+    return out
 
 
 def canon_output(atoms, edges, ixns):
